@@ -1,1 +1,424 @@
-/-! C14 — property theorems (none yet). -/
+import Req.Client.Compress
+import Req.Client.CompressLegacy
+/-!
+C14 — property theorems, part 1: the decision (who asks for gzip, when a response is decoded,
+what is rewritten, that the three protocol stacks are one function, that a body reader always
+exists). Part 2 (readers: read-size independence, sticky errors) is `Req.Props.C14Readers`.
+
+All statements are for every request configuration, every header list and every
+`Content-Encoding` byte string.
+-/
+namespace Req.Props.C14
+open Req.Proto Req.Compress
+
+/-! ### `select`: the supported tokens, exactly -/
+
+/-- `NewCompressReader` builds a reader for exactly the four lower-case tokens. -/
+theorem select_some_iff (ce : Bytes) (a : Alg) :
+    select ce = some a ↔
+      (ce = tokGzip ∧ a = .gzip) ∨ (ce = tokDeflate ∧ a = .deflate) ∨
+      (ce = tokBr ∧ a = .br) ∨ (ce = tokZstd ∧ a = .zstd) := by
+  unfold select arms
+  simp only [List.lookup]
+  constructor
+  · intro h
+    split at h
+    · rename_i h1; simp at h1; simp_all
+    · split at h
+      · rename_i h1; simp at h1; simp_all
+      · split at h
+        · rename_i h1; simp at h1; simp_all
+        · split at h
+          · rename_i h1; simp at h1; simp_all
+          · simp at h
+  · rintro (⟨rfl, rfl⟩ | ⟨rfl, rfl⟩ | ⟨rfl, rfl⟩ | ⟨rfl, rfl⟩) <;> decide
+
+theorem select_none_iff (ce : Bytes) :
+    select ce = none ↔ ce ≠ tokGzip ∧ ce ≠ tokDeflate ∧ ce ≠ tokBr ∧ ce ≠ tokZstd := by
+  constructor
+  · intro h
+    refine ⟨?_, ?_, ?_, ?_⟩ <;> (rintro rfl; revert h; decide)
+  · rintro ⟨h1, h2, h3, h4⟩
+    cases hs : select ce with
+    | none => rfl
+    | some a =>
+      rcases (select_some_iff ce a).mp hs with ⟨h, _⟩ | ⟨h, _⟩ | ⟨h, _⟩ | ⟨h, _⟩ <;> contradiction
+
+-- "GZIP", "Gzip", "gzip, br", "identity", "x-gzip", "" and " gzip" select nothing
+example : select [71, 90, 73, 80] = none := by decide
+example : select [71, 122, 105, 112] = none := by decide
+example : select [103, 122, 105, 112, 44, 32, 98, 114] = none := by decide
+example : select [105, 100, 101, 110, 116, 105, 116, 121] = none := by decide
+example : select [120, 45, 103, 122, 105, 112] = none := by decide
+example : select [] = none := by decide
+example : select [32, 103, 122, 105, 112] = none := by decide
+-- while the EqualFold test of the first branch accepts "GZIP" and rejects the list
+example : isGzipFold [71, 90, 73, 80] = true := by decide
+example : isGzipFold [103, 122, 105, 112, 44, 32, 98, 114] = false := by decide
+
+/-! ### request side -/
+
+/-- **asks_gzip_iff** — the transport adds `Accept-Encoding: gzip` exactly when compression is
+not disabled, the caller set neither `Accept-Encoding` nor `Range`, and the method is not
+HEAD; on all three stacks. -/
+theorem asks_gzip_iff (s : Site) (c : ReqCfg) :
+    addGzip s c = true ↔
+      c.disableCompression = false ∧ c.acceptEncoding = [] ∧ c.range = [] ∧ c.isHead = false := by
+  cases s <;>
+    simp [addGzip, addGzipH1, addGzipH2, addGzipH3, ReqCfg.isHead, and_assoc, and_left_comm, and_comm]
+
+theorem addGzip_sites_agree (c : ReqCfg) :
+    addGzipH1 c = addGzipH2 c ∧ addGzipH2 c = addGzipH3 c := by
+  have h1 := asks_gzip_iff .h1 c
+  have h2 := asks_gzip_iff .h2 c
+  have h3 := asks_gzip_iff .h3 c
+  simp only [addGzip] at h1 h2 h3
+  constructor
+  · exact Bool.eq_iff_iff.mpr (h1.trans h2.symm)
+  · exact Bool.eq_iff_iff.mpr (h2.trans h3.symm)
+
+theorem head_never_asks (s : Site) (c : ReqCfg) (h : c.isHead = true) : addGzip s c = false := by
+  cases hg : addGzip s c with
+  | false => rfl
+  | true => have := ((asks_gzip_iff s c).mp hg).2.2.2; simp_all
+
+/-- The origin sees `gzip` iff the transport added it; otherwise exactly the caller's value. -/
+theorem wire_accept_encoding (s : Site) (c : ReqCfg) :
+    wireAcceptEncoding (addGzip s c) c =
+      if addGzip s c then some tokGzip
+      else if c.acceptEncoding = [] then none else some c.acceptEncoding := by
+  unfold wireAcceptEncoding
+  split <;> simp
+
+example : addGzip .h3 ⟨false, [71, 69, 84], [], []⟩ = true := by decide
+example : addGzip .h1 ⟨false, [71, 69, 84], [98, 114], []⟩ = false := by decide
+example : addGzip .h2 ⟨false, tokHEAD, [], []⟩ = false := by decide
+example : addGzip .h1 ⟨false, [71, 69, 84], [], [98, 121, 116, 101, 115, 61, 48, 45, 49]⟩ = false := by decide
+
+/-! ### response side -/
+
+/-- Does the stack reach its decoding branch at all? H1/H2 leave early for HEAD and for
+responses without a body reader; H3 has no such exit. -/
+def reaches (s : Site) (i : RespIn) : Bool :=
+  match s with
+  | .h3 => true
+  | _ => !i.isHead && i.hasBody
+
+/-- **decoded_when** — the gzip branch is taken iff the transport itself asked for gzip and
+the response says gzip (ASCII case-insensitively). -/
+theorem decoded_when (s : Site) (i : RespIn) (hhead : i.isHead = true → i.addedGzip = false) :
+    decideAt s i = .gunzip ↔ reaches s i = true ∧ i.addedGzip = true ∧ isGzipFold i.ce = true := by
+  cases s <;> simp only [decideAt, decideH1, decideH2, decideH3, decideCore, reaches]
+  · cases h1 : i.isHead <;> cases h2 : i.hasBody <;> cases h3 : i.addedGzip <;>
+      cases h4 : isGzipFold i.ce <;> cases h5 : i.autoDecompress <;> simp <;>
+      (split <;> simp)
+  · cases h1 : i.isHead <;> cases h2 : i.hasBody <;> cases h3 : i.addedGzip <;>
+      cases h4 : isGzipFold i.ce <;> cases h5 : i.autoDecompress <;> simp <;>
+      (split <;> simp)
+  · cases h1 : i.isHead <;> cases h3 : i.addedGzip <;>
+      cases h4 : isGzipFold i.ce <;> cases h5 : i.autoDecompress <;> simp_all <;>
+      (split <;> simp)
+
+/-- **decompress_when** — the auto-decompress branch installs the reader of algorithm `a` iff
+the gzip branch did not apply, AutoDecompression is on, the request is not HEAD, and
+`Content-Encoding` is exactly the token of `a`. -/
+theorem decompress_when (s : Site) (i : RespIn) (a : Alg) :
+    decideAt s i = .decompress a ↔
+      reaches s i = true ∧ i.isHead = false ∧ ¬(i.addedGzip = true ∧ isGzipFold i.ce = true) ∧
+      i.autoDecompress = true ∧ select i.ce = some a := by
+  cases s <;> simp only [decideAt, decideH1, decideH2, decideH3, decideCore, reaches]
+  · cases h1 : i.isHead <;> cases h2 : i.hasBody <;> cases h3 : i.addedGzip <;>
+      cases h4 : isGzipFold i.ce <;> cases h5 : i.autoDecompress <;> simp <;>
+      (split <;> simp_all)
+  · cases h1 : i.isHead <;> cases h2 : i.hasBody <;> cases h3 : i.addedGzip <;>
+      cases h4 : isGzipFold i.ce <;> cases h5 : i.autoDecompress <;> simp <;>
+      (split <;> simp_all)
+  · cases h1 : i.isHead <;> cases h3 : i.addedGzip <;>
+      cases h4 : isGzipFold i.ce <;> cases h5 : i.autoDecompress <;> simp <;>
+      (split <;> simp_all)
+
+/-- The three outcomes are exhaustive: not gunzip and no reader ⇒ untouched. -/
+theorem action_untouched_iff (s : Site) (i : RespIn) :
+    decideAt s i = .untouched ↔ decideAt s i ≠ .gunzip ∧ ∀ a, decideAt s i ≠ .decompress a := by
+  cases h : decideAt s i <;> simp
+
+/-- **untouched_otherwise** — whenever neither decoding condition holds, the caller gets the
+body as received and the very same response (header list, ContentLength, Uncompressed). -/
+theorem untouched_otherwise (s : Site) (c : ReqCfg) (auto hasBody : Bool) (r : Resp)
+    (hg : ¬(reaches s (respIn s c auto hasBody r) = true ∧ addGzip s c = true ∧
+            isGzipFold (hget r.header hContentEncoding) = true))
+    (hd : ¬(reaches s (respIn s c auto hasBody r) = true ∧ c.isHead = false ∧ auto = true ∧
+            (select (hget r.header hContentEncoding)).isSome = true)) :
+    process s c auto hasBody r = ⟨r, some .raw⟩ := by
+  have hhead : (respIn s c auto hasBody r).isHead = true →
+      (respIn s c auto hasBody r).addedGzip = false := fun h => head_never_asks s c h
+  have h1 : decideAt s (respIn s c auto hasBody r) ≠ .gunzip := by
+    intro h
+    exact hg ((decoded_when s _ hhead).mp h)
+  have h2 : ∀ a, decideAt s (respIn s c auto hasBody r) ≠ .decompress a := by
+    intro a h
+    have := (decompress_when s _ a).mp h
+    apply hd
+    refine ⟨this.1, this.2.1, this.2.2.2.1, ?_⟩
+    have hs := this.2.2.2.2
+    simp only [respIn] at hs
+    simp [hs]
+  have h3 := (action_untouched_iff s _).mpr ⟨h1, h2⟩
+  simp [process, h3, applyAction]
+
+/-- the caller set `Accept-Encoding` itself and did not enable AutoDecompression -/
+theorem untouched_caller_accept_encoding (s : Site) (c : ReqCfg) (hasBody : Bool) (r : Resp)
+    (h : c.acceptEncoding ≠ []) : process s c false hasBody r = ⟨r, some .raw⟩ := by
+  apply untouched_otherwise
+  · intro hh; have := (asks_gzip_iff s c).mp hh.2.1; exact h this.2.1
+  · intro hh; simp at hh
+
+/-- Range request without AutoDecompression -/
+theorem untouched_range (s : Site) (c : ReqCfg) (hasBody : Bool) (r : Resp)
+    (h : c.range ≠ []) : process s c false hasBody r = ⟨r, some .raw⟩ := by
+  apply untouched_otherwise
+  · intro hh; have := (asks_gzip_iff s c).mp hh.2.1; exact h this.2.2.1
+  · intro hh; simp at hh
+
+/-- DisableCompression without AutoDecompression -/
+theorem untouched_disable_compression (s : Site) (c : ReqCfg) (hasBody : Bool) (r : Resp)
+    (h : c.disableCompression = true) : process s c false hasBody r = ⟨r, some .raw⟩ := by
+  apply untouched_otherwise
+  · intro hh; have := (asks_gzip_iff s c).mp hh.2.1; simp_all
+  · intro hh; simp at hh
+
+/-- HEAD, whatever the configuration and whatever the response claims -/
+theorem untouched_head (s : Site) (c : ReqCfg) (auto hasBody : Bool) (r : Resp)
+    (h : c.isHead = true) : process s c auto hasBody r = ⟨r, some .raw⟩ := by
+  apply untouched_otherwise
+  · intro hh; have := head_never_asks s c h; simp_all
+  · intro hh; simp_all
+
+/-- absent, unsupported, mixed-case or list encodings: any `Content-Encoding` value that is
+neither one of the four tokens nor a case variant of `gzip` -/
+theorem untouched_unsupported (s : Site) (c : ReqCfg) (auto hasBody : Bool) (r : Resp)
+    (h1 : select (hget r.header hContentEncoding) = none)
+    (h2 : isGzipFold (hget r.header hContentEncoding) = false) :
+    process s c auto hasBody r = ⟨r, some .raw⟩ := by
+  apply untouched_otherwise
+  · intro hh; simp_all
+  · intro hh; simp_all
+
+/-- mixed-case `GZIP` under AutoDecompression when the transport did NOT ask for gzip -/
+theorem untouched_mixed_case_auto (s : Site) (c : ReqCfg) (hasBody : Bool) (r : Resp)
+    (h1 : select (hget r.header hContentEncoding) = none) (h2 : addGzip s c = false) :
+    process s c true hasBody r = ⟨r, some .raw⟩ := by
+  apply untouched_otherwise
+  · intro hh; simp_all
+  · intro hh; simp_all
+
+-- non-vacuity: header [X-A: 1, Content-Encoding: GZIP, Content-Length: 5], GET, AutoDecompress,
+-- caller Accept-Encoding "br"
+example :
+    let r : Resp := ⟨[([88, 45, 65], [49]), (hContentEncoding, [71, 90, 73, 80]), (hContentLength, [53])], 5, false⟩
+    process .h2 ⟨false, [71, 69, 84], [98, 114], []⟩ true true r = ⟨r, some .raw⟩ := by decide
+
+/-! ### the rewrite -/
+
+theorem hget_hdel_self (h : Header) (k : Bytes) : hget (hdel h k) k = [] := by
+  unfold hget hdel
+  have : (List.filter (fun p => p.1 != k) h).find? (fun p => p.1 == k) = none := by
+    rw [List.find?_eq_none]
+    intro x hx
+    have := (List.mem_filter.mp hx).2
+    simp_all
+  rw [this]
+
+theorem hvalues_hdel_self (h : Header) (k : Bytes) : hvalues (hdel h k) k = [] := by
+  unfold hvalues hdel
+  rw [List.filter_filter]
+  have : (List.filter (fun a => (a.1 == k && a.1 != k)) h) = [] := by
+    rw [List.filter_eq_nil_iff]; intro a _; cases h : a.1 == k <;> simp_all
+  simp [this]
+
+theorem hdel_comm (h : Header) (k k' : Bytes) : hdel (hdel h k) k' = hdel (hdel h k') k := by
+  unfold hdel; simp only [List.filter_filter]; congr 1; funext a; exact Bool.and_comm _ _
+
+theorem hvalues_hdel_other (h : Header) (k k' : Bytes) (hne : k' ≠ k) :
+    hvalues (hdel h k) k' = hvalues h k' := by
+  unfold hvalues hdel
+  rw [List.filter_filter]
+  congr 1
+  apply List.filter_congr
+  intro a _
+  cases h1 : a.1 == k' <;> simp_all
+
+/-- **rewrite_when_decoded** — whenever the body is decoded the response no longer claims an
+encoding or a length (no `Content-Encoding`/`Content-Length` value is left, however many
+there were), `ContentLength = -1`, `Uncompressed = true`; every other field keeps its values
+in order. -/
+theorem rewrite_when_decoded (s : Site) (c : ReqCfg) (auto hasBody : Bool) (r : Resp)
+    (h : (process s c auto hasBody r).body ≠ some .raw) :
+    let o := process s c auto hasBody r
+    hvalues o.resp.header hContentEncoding = [] ∧ hvalues o.resp.header hContentLength = [] ∧
+    o.resp.contentLength = -1 ∧ o.resp.uncompressed = true ∧
+    (∀ k, k ≠ hContentEncoding → k ≠ hContentLength → hvalues o.resp.header k = hvalues r.header k) ∧
+    o.resp.header = r.header.filter (fun p => p.1 != hContentEncoding && p.1 != hContentLength) := by
+  have key : (process s c auto hasBody r).resp = strip r := by
+    unfold process at h ⊢
+    cases hd : decideAt s (respIn s c auto hasBody r) <;> simp_all [applyAction]
+  simp only [key, strip]
+  refine ⟨?_, hvalues_hdel_self _ _, trivial, trivial, ?_, ?_⟩
+  · rw [hdel_comm]; exact hvalues_hdel_self _ _
+  · intro k h1 h2
+    rw [hvalues_hdel_other _ _ _ h2, hvalues_hdel_other _ _ _ h1]
+  · unfold hdel; rw [List.filter_filter]; congr 1; funext a; exact Bool.and_comm _ _
+
+-- two Content-Encoding lines and a Content-Length: all gone, X-A stays
+example :
+    (process .h1 ⟨false, [71, 69, 84], [], []⟩ false true
+      ⟨[([88, 45, 65], [49]), (hContentEncoding, tokGzip), (hContentLength, [53]),
+        (hContentEncoding, tokBr)], 5, false⟩)
+    = ⟨⟨[([88, 45, 65], [49])], -1, true⟩, some .gunzip⟩ := by decide
+
+/-! ### the three stacks are one function; a body always exists -/
+
+/-- **sites_agree** — for a response that carries a body the three stacks compute the same
+result (same reader kind, same rewritten response) from the same request configuration;
+HTTP/1.1 and HTTP/2 agree on bodiless responses too. -/
+theorem decideH1_eq_decideH2 (i : RespIn) : decideH1 i = decideH2 i := by
+  unfold decideH1 decideH2
+  cases h1 : i.isHead <;> cases h2 : i.hasBody <;> simp
+
+theorem decideH2_eq_decideH3 (i : RespIn) (hb : i.hasBody = true)
+    (hh : i.isHead = true → i.addedGzip = false) : decideH2 i = decideH3 i := by
+  unfold decideH2 decideH3 decideCore
+  cases h1 : i.isHead
+  · simp [hb]
+  · simp [hh h1]
+
+theorem sites_agree (c : ReqCfg) (auto : Bool) (r : Resp) :
+    process .h1 c auto true r = process .h2 c auto true r ∧
+    process .h2 c auto true r = process .h3 c auto true r ∧
+    (∀ hasBody, process .h1 c auto hasBody r = process .h2 c auto hasBody r) := by
+  have hg := addGzip_sites_agree c
+  have hh : c.isHead = true → addGzipH3 c = false := head_never_asks .h3 c
+  refine ⟨?_, ?_, ?_⟩
+  · simp only [process, respIn, decideAt, addGzip, hg.1, decideH1_eq_decideH2]
+  · simp only [process, respIn, decideAt, addGzip, hg.2]
+    rw [decideH2_eq_decideH3 _ rfl hh]
+  · intro hasBody
+    simp only [process, respIn, decideAt, addGzip, hg.1, decideH1_eq_decideH2]
+
+/-- On a HEAD exchange every stack leaves the response alone (H3 included, where the branch is
+reached). -/
+theorem sites_agree_head (c : ReqCfg) (auto hasBody : Bool) (r : Resp) (h : c.isHead = true) :
+    process .h1 c auto hasBody r = process .h3 c auto hasBody r ∧
+    process .h2 c auto hasBody r = process .h3 c auto hasBody r := by
+  simp [untouched_head _ c auto hasBody r h]
+
+/-- **body_is_usable** — whatever the inputs, `Response.Body` is a reader (never a nil
+interface). Feeds C07. -/
+theorem body_is_usable (s : Site) (c : ReqCfg) (auto hasBody : Bool) (r : Resp) :
+    (process s c auto hasBody r).body ≠ none := by
+  unfold process
+  cases decideAt s (respIn s c auto hasBody r) <;> simp [applyAction]
+
+/-! ### the same statements are FALSE of the code before fixes/C14-1..3
+
+Witnesses, each replayed on the implementation by the e2e lanes (classes `nil-reader`,
+`h3-auto-nil-body`, `h3-head-auto`, `h3-gzip-case`). -/
+
+/-- GET, AutoDecompression, caller `Accept-Encoding: br`, response `Content-Encoding: identity`,
+`Content-Length: 5`. -/
+def witnessCfg : ReqCfg := ⟨false, [71, 69, 84], [98, 114], []⟩
+def witnessResp (ce : Bytes) : Resp := ⟨[(hContentEncoding, ce), (hContentLength, [53])], 5, false⟩
+def ceIdentity : Bytes := [105, 100, 101, 110, 116, 105, 116, 121]
+def ceGZIP : Bytes := [71, 90, 73, 80]
+
+/-- defect 9: unsupported encoding + AutoDecompression → headers stripped (not untouched) … -/
+theorem legacy_untouched_fails :
+    Legacy.process .h1 witnessCfg true true (witnessResp ceIdentity) ≠
+      ⟨witnessResp ceIdentity, some .raw⟩ ∧
+    Legacy.process .h2 witnessCfg true true (witnessResp ceGZIP) ≠
+      ⟨witnessResp ceGZIP, some .raw⟩ := by decide
+
+/-- … and no body reader at all (nil interface). Defect 10: on HTTP/3 that is so for EVERY
+response under AutoDecompression, supported encoding or none. -/
+theorem legacy_body_unusable :
+    (Legacy.process .h1 witnessCfg true true (witnessResp ceIdentity)).body = none ∧
+    (Legacy.process .h2 witnessCfg true true (witnessResp ceGZIP)).body = none ∧
+    (Legacy.process .h3 witnessCfg true true (witnessResp tokGzip)).body = none ∧
+    (Legacy.process .h3 witnessCfg true true ⟨[], -1, false⟩).body = none := by decide
+
+/-- the stacks disagree: supported encoding under AutoDecompression (H3 nil body), `GZIP`
+answered to a transport-added `Accept-Encoding: gzip` (H3 compares exactly), HEAD under
+AutoDecompression (H3 strips the header). -/
+theorem legacy_sites_disagree :
+    Legacy.process .h2 witnessCfg true true (witnessResp tokGzip) ≠
+      Legacy.process .h3 witnessCfg true true (witnessResp tokGzip) ∧
+    Legacy.process .h1 ⟨false, [71, 69, 84], [], []⟩ false true (witnessResp ceGZIP) ≠
+      Legacy.process .h3 ⟨false, [71, 69, 84], [], []⟩ false true (witnessResp ceGZIP) ∧
+    Legacy.process .h1 ⟨false, tokHEAD, [], []⟩ true true (witnessResp tokGzip) ≠
+      Legacy.process .h3 ⟨false, tokHEAD, [], []⟩ true true (witnessResp tokGzip) := by decide
+
+/-- Where the legacy model and the repaired model differ — exactly the four finding classes;
+everywhere else the fixes change nothing. -/
+theorem legacy_differs_only (s : Site) (c : ReqCfg) (auto hasBody : Bool) (r : Resp)
+    (hne : Legacy.process s c auto hasBody r ≠ process s c auto hasBody r) :
+    (auto = true ∧ hget r.header hContentEncoding ≠ [] ∧
+        select (hget r.header hContentEncoding) = none) ∨
+    (s = .h3 ∧ auto = true) ∨
+    (s = .h3 ∧ addGzip s c = true ∧ isGzipFold (hget r.header hContentEncoding) = true ∧
+        hget r.header hContentEncoding ≠ tokGzip) := by
+  have core : ∀ i : RespIn, Legacy.applyAction (Legacy.decideCore i) r ≠ applyAction (decideCore i) r →
+      i.autoDecompress = true ∧ i.ce ≠ [] ∧ select i.ce = none := by
+    intro i
+    unfold Legacy.decideCore decideCore
+    cases h1 : (i.addedGzip && isGzipFold i.ce)
+    · cases h2 : i.autoDecompress
+      · simp [Legacy.applyAction, applyAction]
+      · cases h3 : select i.ce
+        · by_cases h4 : i.ce = []
+          · simp [h4, Legacy.applyAction, applyAction]
+          · simp [h4]
+        · by_cases h4 : i.ce = []
+          · rw [h4] at h3
+            have : select [] = none := by decide
+            rw [this] at h3; cases h3
+          · simp [h4, Legacy.applyAction, applyAction]
+    · simp [Legacy.applyAction, applyAction]
+  revert hne
+  cases s
+  · simp only [Legacy.process, process, Legacy.decideAt, decideAt, Legacy.decideH1, decideH1]
+    intro hne
+    cases h : ((respIn .h1 c auto hasBody r).isHead || !(respIn .h1 c auto hasBody r).hasBody)
+    · rw [h] at hne; simp only [Bool.false_eq_true, if_false] at hne
+      exact Or.inl (core _ hne)
+    · rw [h] at hne; simp [Legacy.applyAction, applyAction] at hne
+  · simp only [Legacy.process, process, Legacy.decideAt, decideAt, Legacy.decideH2, decideH2]
+    intro hne
+    cases h : (respIn .h2 c auto hasBody r).isHead
+    · rw [h] at hne; simp only [Bool.false_eq_true, if_false] at hne
+      cases h' : (!(respIn .h2 c auto hasBody r).hasBody)
+      · rw [h'] at hne; simp only [Bool.false_eq_true, if_false] at hne
+        exact Or.inl (core _ hne)
+      · rw [h'] at hne; simp [Legacy.applyAction, applyAction] at hne
+    · rw [h] at hne; simp [Legacy.applyAction, applyAction] at hne
+  · intro hne
+    cases hauto : auto
+    · right; right
+      refine ⟨rfl, ?_⟩
+      subst hauto
+      simp only [Legacy.process, process, Legacy.decideAt, decideAt, Legacy.decideH3, decideH3,
+        respIn] at hne
+      cases hg : addGzip .h3 c
+      · simp [hg, Legacy.applyAction, applyAction] at hne
+      · cases hf : isGzipFold (hget r.header hContentEncoding)
+        · have : (hget r.header hContentEncoding == tokGzip) = false := by
+            cases heq : (hget r.header hContentEncoding == tokGzip)
+            · rfl
+            · have := eq_of_beq heq; rw [this] at hf; revert hf; decide
+          simp [hg, hf, this, Legacy.applyAction, applyAction] at hne
+        · refine ⟨rfl, rfl, ?_⟩
+          intro heq
+          have hf' : isGzipFold tokGzip = true := by decide
+          simp [hg, heq, hf', Legacy.applyAction, applyAction] at hne
+    · right; left; exact ⟨rfl, rfl⟩
+
+end Req.Props.C14
